@@ -16,6 +16,7 @@ mod oracle;
 mod optrace;
 mod output;
 mod pipeline;
+mod scripts;
 mod states;
 mod suites;
 
@@ -152,6 +153,12 @@ fn main() {
             m.get("tier").map(|t| t == "thorough").unwrap_or(false),
             m.get("seed").and_then(|s| s.parse().ok()).unwrap_or(1),
         ),
+        "scripts" => scripts::scripts(
+            m.get("in").expect("--in"),
+            m.get("out").expect("--out"),
+            m.get("seed").and_then(|s| s.parse().ok()).unwrap_or(1),
+        ),
+        "site-edges" => geom::site_edges(m.get("out").expect("--out")),
         "tables" => geom::tables(m.get("out").expect("--out")),
         "crystal" => geom::crystal(m.get("in").expect("--in"), m.get("out").expect("--out")),
         _ => {
